@@ -3,7 +3,11 @@ package schedh
 
 import (
 	"fmt"
+	"runtime"
+	"runtime/debug"
 	"strings"
+	"sync/atomic"
+	"syscall"
 
 	"verif.local/mc/mc"
 	"verif.local/mc/shim"
@@ -44,6 +48,7 @@ func Run(c *mc.Ctx, o Opts, body func()) *shim.Sched {
 	if o.MaxSteps == 0 {
 		o.MaxSteps = 20000
 	}
+	Housekeeping()
 	s := shim.NewSched(&chooser{c: c, noAdv: o.NoAdvanceAlt}, o.MaxSteps)
 	if o.MaxAdvances > 0 {
 		s.MaxAdvances = o.MaxAdvances
@@ -83,4 +88,38 @@ func Must(err error) {
 	if err != nil {
 		panic(fmt.Sprintf("mc: harness: %v", err))
 	}
+}
+
+var execCount int
+
+// Housekeeping is called at the start of every scheduled execution (scheduler inactive):
+// automatic garbage collection is switched off for the whole process, because table cleanups
+// run on a runtime goroutine that would reach scheduling points of an active execution; every
+// 40 executions the garbage is collected and the cleanups are awaited here instead.
+func Housekeeping() {
+	if execCount == 0 {
+		debug.SetGCPercent(-1)
+	}
+	execCount++
+	if execCount%40 != 0 {
+		return
+	}
+	var done atomic.Bool
+	func() {
+		s := new([64]byte)
+		runtime.AddCleanup(s, func(d *atomic.Bool) { d.Store(true) }, &done)
+	}()
+	runtime.GC()
+	for i := 0; !done.Load(); i++ {
+		runtime.Gosched()
+		if i > 1000 {
+			osSleep()
+		}
+	}
+}
+
+// osSleep yields the OS thread briefly without touching the bubble's fake clock.
+func osSleep() {
+	ts := syscall.Timespec{Nsec: 200000}
+	syscall.Nanosleep(&ts, nil)
 }
